@@ -559,13 +559,14 @@ class Filters:
         length and the additional pad is more than the max line length,
         wrap the text into multiple lines, avoiding breaking long words
         """
-        if data.startswith("ForwardRef("):
+        # The generator's own placeholders, any other string is user data
+        if key == "type" and data.startswith("ForwardRef("):
             return data
 
-        if data.startswith("Type["):
+        if key == "type" and data.startswith("Type["):
             return data[5:-1]
 
-        if data.startswith("Literal[") and data.endswith("]"):
+        if not key and data.startswith("Literal[") and data.endswith("]"):
             return data[8:-1]
 
         if key in (self.FACTORY_KEY, self.DEFAULT_KEY):
